@@ -4,7 +4,8 @@
 (* MaxFiles files over the classes, each named explicitly or placed in a    *)
 (* directory argument, crossed with mode, output format, --verify and       *)
 (* --num-threads.  The order of the sequence is the order on the command    *)
-(* line.                                                                    *)
+(* line.  Classes "empty" (zero bytes: already formatted) and "nonl" (only  *)
+(* the final newline is missing: differs) probe the already-formatted test. *)
 (***************************************************************************)
 EXTENDS Naturals, Sequences, FiniteSets, TLC, Json
 
@@ -12,7 +13,10 @@ CONSTANTS Classes, Locs, MaxFiles, Modes, Formats, Threads, VerifyOpts, RangeOpt
 VARIABLES files, mode, fmt, verify, threads, rng, phase
 vars == <<files, mode, fmt, verify, threads, rng, phase>>
 
-Items == {[cls |-> c, loc |-> l] : c \in Classes, l \in Locs} \ {[cls |-> "missing", loc |-> "dir"]}
+\* loc: "arg" = named on the command line; "dir" = found by walking the directory argument `d`; "both" = lies in `d`
+\* AND is named explicitly as well (reachable twice: must be processed, reported and written once).
+\* A missing file can only be named.
+Items == {[cls |-> c, loc |-> l] : c \in Classes, l \in Locs} \ {[cls |-> "missing", loc |-> l] : l \in {"dir", "both"}}
 Init == files \in UNION {[1..n -> Items] : n \in 1..MaxFiles} /\ mode = "" /\ fmt = "" /\ verify = FALSE /\ threads = 0 /\ rng = FALSE /\ phase = "files"
 Configure ==
   /\ phase = "files"
